@@ -44,7 +44,7 @@ def InRange (p a b : P) : Prop :=
   spread p a b < 2 ^ 500 ∧ (spread p a b = 0 ∨ 1 / 2 ^ 500 < spread p a b)
 
 /-- `distPointToSegment`: in range, its square is the model's `distSq` -/
-theorem tie_distPointToSegmentF_len (n : Nat) (p a b : P) (h : InRange p a b) :
+theorem C13_tie_distPointToSegment_fuel (n : Nat) (p a b : P) (h : InRange p a b) :
     Gen.distPointToSegmentF (n + 1) p a b = Len.sqrt (distSq p a b) := by
   have hL : (3273390607896141870013189696827599152216642046043064789483291368096133796404674554883270092325904157150886684127560071009217256545885393053328527589376 : Rat) = 2 ^ 500 := by
     exact_mod_cast (by decide +kernel : (3273390607896141870013189696827599152216642046043064789483291368096133796404674554883270092325904157150886684127560071009217256545885393053328527589376 : Nat) = 2 ^ 500)
@@ -76,7 +76,7 @@ theorem tie_distPointToSegmentF_len (n : Nat) (p a b : P) (h : InRange p a b) :
 theorem C13_tie_distPointToSegment (p a b : P) (h : InRange p a b) :
     (Gen.distPointToSegment p a b).sq = distSq p a b := by
   unfold Gen.distPointToSegment
-  rw [tie_distPointToSegmentF_len 1 p a b h]; rfl
+  rw [C13_tie_distPointToSegment_fuel 1 p a b h]; rfl
 
 /-- `findIntersection2(0, 1, lo/√q, hi/√q, &w)` for a non-zero length is the model's `overlapCount` -/
 theorem C13_tie_findIntersection2 (lo hi q : Rat) (hq : q ≠ 0) :
